@@ -36,6 +36,9 @@ class AProg:
     def inherits(self):
         return [(it[1], it[2]) for it in self.items if it[0] == "i"]
 
+    def has_w(self):
+        return any(it[0] == "v" for it in self.items)
+
     def defs(self):
         return {it[2]: it for it in self.items if it[0] == "d"}
 
@@ -44,6 +47,8 @@ class AProg:
         for it in self.items:
             if it[0] == "d":
                 out.append("d:%s:%s:%s" % (it[1], it[2], "+".join(it[3]) or "-"))
+            elif it[0] == "v":
+                out.append("v:%s" % it[1])
             else:
                 out.append("%s:%s:%s" % it)
         return "prog %s %s" % (self.name, " ".join(out))
@@ -102,14 +107,18 @@ def lpc_source(g, P, base):
     var_done = False
     n_inh = len(P.inherits())
     seen_inh = 0
+    has_w = any(it[0] == "v" for it in P.items)
+    vdecl = "int v_%s;" % P.name + ("\nprivate int w;" if has_w else "")
     for it in P.items:
+        if it[0] == "v":
+            continue
         if it[0] == "i":
             mods = "" if it[1] == "-" else it[1].replace("_", " ") + " "
             out.append('%sinherit "%s/%s";' % (mods, base, it[2]))
             seen_inh += 1
             continue
         if seen_inh == n_inh and not var_done:
-            out.append("int v_%s;" % P.name)
+            out.append(vdecl)
             var_done = True
         mods = "" if it[1] == "-" else it[1].replace("_", " ") + " "
         if it[0] == "p":
@@ -125,10 +134,11 @@ def lpc_source(g, P, base):
                     par, fn = c[1:].split(".")
                     calls.append("%s::%s();" % ("" if par == "*" else par, fn))
             code = (fnum(P.name) + 1) * 100 + fnum(it[2])
-            out.append('%sstring %s() { VL("run %s:%s " + v_%s); v_%s = %d; %s return "%s:%s"; }'
-                       % (mods, it[2], P.name, it[2], P.name, P.name, code, " ".join(calls), P.name, it[2]))
+            wset = "w = %d; " % (code + 5000) if has_w else ""
+            out.append('%sstring %s() { VL("run %s:%s " + v_%s); v_%s = %d; %s%s return "%s:%s"; }'
+                       % (mods, it[2], P.name, it[2], P.name, P.name, code, wset, " ".join(calls), P.name, it[2]))
     if not var_done:
-        out.append("int v_%s;" % P.name)
+        out.append(vdecl)
     return "\n".join(out) + "\n"
 
 
@@ -145,6 +155,8 @@ def parse_graph(lines):
                     P.items.append(("d", f[1], f[2], [] if f[3] == "-" else f[3].split("+")))
                 elif f[0] in ("i", "p") and len(f) == 3:
                     P.items.append((f[0], f[1], f[2]))
+                elif f[0] == "v" and len(f) == 2:
+                    P.items.append(("v", f[1]))
             g[P.name] = P
             order.append(P.name)
     return g, order
@@ -520,6 +532,9 @@ class C07(Prop):
                 fn = rng.choice(fpool)
                 if fn not in P.defs():
                     P.items.append(("p", rng.choice(MODS), fn))
+            if rng.chance(2, 5):
+                # a private variable with the SAME name `w` at every level that has it
+                P.items.append(("v", "private"))
         return g, order, fpool
 
     def gen_case(self, rng, cid):
@@ -566,6 +581,31 @@ class C07(Prop):
             try:
                 g, order = parse_graph(c.lines)
                 h["max_depth"] = max([h["max_depth"]] + [depth(g, n) for n in order])
+                for n in order:
+                    P = g[n]
+                    if P.has_w():
+                        h["programs_with_private_w"] = h.get("programs_with_private_w", 0) + 1
+                        if any(g[q].has_w() for _, q in P.inherits()):
+                            h["private_w_at_two_levels"] = h.get("private_w_at_two_levels", 0) + 1
+                    for it in P.items:
+                        if it[0] != "d":
+                            continue
+                        for x in it[3]:
+                            if x[0] != "S":
+                                continue
+                            par, fn = x[1:].split(".")
+                            for _, q in P.inherits():
+                                if par not in ("*", q):
+                                    continue
+                                r = resolve(g, q, fn)
+                                if r is None:
+                                    continue
+                                d = q
+                                for k in r:
+                                    d = g[d].inherits()[k][1]
+                                if "private" in g[d].defs()[fn][1]:
+                                    h["super_calls_to_private"] = h.get("super_calls_to_private", 0) + 1
+                                break
             except Exception:
                 pass
             for l in c.lines:
